@@ -190,7 +190,7 @@ theorem C20_switch_independence (cls : Cls) (f : Field) :
   rw [filter_all_true _ (beforePart cls) (fun e he => by
         rcases beforePart_kind cls e he with h | h | h <;> simp [isValidator, h]),
       filter_all_true _ (afterPart cls) (fun e he => by simp [isValidator, afterPart_kind cls e he]),
-      filter_all_false _ (validatorPlan cls.fields) (fun e he => by simp [isValidator, validatorPlan_kind _ e he])]
+      filter_all_false _ (validatorPlan (cls.fields.filter Field.participates)) (fun e he => by simp [isValidator, validatorPlan_kind _ e he])]
   simp
 
 /-- **C20_hooks_unaffected**: whatever the switch says, the non-validator callbacks of a construction are the
@@ -208,7 +208,7 @@ theorem C20_hooks_unaffected (cls : Cls) (run : Bool) :
         filter_all_true _ (afterPart cls) (fun e he => by simp [isValidator, afterPart_kind cls e he])]
     cases run
     · simp
-    · rw [if_pos rfl, filter_all_false _ (validatorPlan cls.fields)
+    · rw [if_pos rfl, filter_all_false _ (validatorPlan (cls.fields.filter Field.participates))
         (fun e he => by simp [isValidator, validatorPlan_kind _ e he])]
       simp
   · intro hp
@@ -225,21 +225,23 @@ theorem C20_hooks_unaffected (cls : Cls) (run : Bool) :
     | withArgs => simp [C02.ev]
 
 /-- **C20_construct_callbacks**: for a class with distinct field names, everything a construction calls, in
-    order: `__attrs_pre_init__` if the class has one; per field its factory (the argument was left out) and its
-    converter; every validator of every field iff validators are enabled; `__attrs_post_init__` if the class has
-    one.  Only the third group depends on the switch. -/
+    order: `__attrs_pre_init__` if the class has one; per field the initializer sets — `__init__` parameters and
+    `init=False` fields that have a default alike — its factory and its converter; every validator of every
+    such field iff validators are enabled (being an `__init__` parameter plays no role); `__attrs_post_init__`
+    if the class has one.  Only the third group depends on the switch. -/
 theorem C20_construct_callbacks (cls : Cls) (run : Bool) (hn : (cls.fields.map (·.name)).Nodup) :
     constructPlan cls run =
       (if cls.pre = .none then [] else [preId]) ++
-      cls.fields.flatMap (fun f => (if f.factory then [factoryId f] else []) ++ (if f.conv then [convId f] else [])) ++
-      (if run then validatorPlan cls.fields else []) ++
+      (cls.fields.filter Field.participates).flatMap fieldCallbacks ++
+      (if run then validatorPlan (cls.fields.filter Field.participates) else []) ++
       (if cls.post then [{ kind := "post", field := "", idx := 0 }] else []) := by
   rw [constructPlan_struct, beforePart_explicit cls hn]; rfl
 
 /-- enabled and nothing fails ⇒ *all* validators of *all* fields fire on construction and in `validate()` -/
 theorem C20_enabled_all_fire (c : Case) (hwf : wf c = true) (st st' : St) (hr : st.run = true)
     (hf : c.fault = none) (k : Nat) (cls : Cls) (hk : c.classes[k]? = some cls) :
-    (stepObs c st st' (.construct k)).events = beforePart cls ++ validatorPlan cls.fields ++ afterPart cls ∧
+    (stepObs c st st' (.construct k)).events =
+      beforePart cls ++ validatorPlan (cls.fields.filter Field.participates) ++ afterPart cls ∧
     (stepObs c st st' (.validate k)).events = validatorPlan cls.fields ∧
     (stepObs c st st' (.construct k)).exc = none ∧ (stepObs c st st' (.validate k)).exc = none := by
   have h1 := C20_honoured_construct c hwf st st' k cls hk
@@ -330,13 +332,66 @@ theorem C20_matcher_is_dyck (body rest : List (Op × Bool)) (r : Bool)
 theorem C20_model_meets_spec (c : Case) (hwf : wf c = true) : spec c (model c) = true := by
   unfold wf at hwf
   simp only [Bool.and_eq_true, List.all_eq_true] at hwf
-  obtain ⟨⟨⟨hb, ha⟩, _⟩, hI⟩ := hwf
-  exact specGo_model c hI c.ops (St.init c) [] rfl hb ha
+  obtain ⟨⟨⟨⟨hb, ha⟩, ⟨⟨⟨hbb, hbo⟩, _⟩, _⟩⟩, _⟩, hI⟩ := hwf
+  have hbb' : (bal 0 c.body).isSome = true := by
+    have : bal 0 c.body = some 0 := by simpa using hbb
+    simp [this]
+  unfold spec
+  rw [Bool.and_eq_true]
+  exact ⟨specGo_model c hI c.ops (St.init c) [] rfl hb ha,
+         nestedOk_model c hI hbb' hbo c.ops (St.init c)⟩
+
+/-! ## Inside callbacks -/
+
+/-- **C20_callbacks_see_callers_switch**: whatever a callback does while it runs on behalf of a construction,
+    an assignment or `validate()` — read the getters, construct / assign / validate other instances, open a
+    `disabled()` block of its own — it observes exactly what the same operations would observe as a history of
+    their own started from the switch position the outer operation found: the outer operation does not move
+    the switch on the way to (or around) its callbacks. -/
+theorem C20_callbacks_see_callers_switch (c : Case) (st : St) (op : Op) :
+    ∀ inv ∈ nestedOf c st op, inv = (model { c with start := st.run, ops := c.body }).steps := by
+  intro inv hinv
+  unfold nestedOf at hinv
+  cases hp : c.probe with
+  | none => simp [hp] at hinv
+  | some p =>
+    simp only [hp] at hinv
+    rw [List.eq_of_mem_replicate hinv]
+    simp only [model, St.init, runBody]
+    apply runOpsWith_congr <;> rfl
+
+/-- in particular a getter called first thing inside any callback returns the caller's switch position -/
+theorem C20_getter_inside_callback (c : Case) (st : St) (op : Op) (rest : List Op)
+    (hb : c.body = .getRun :: rest) :
+    ∀ inv ∈ nestedOf c st op, (inv.head?).map (·.ret) = some (some (B3.ofBool st.run)) := by
+  intro inv hinv
+  rw [C20_callbacks_see_callers_switch c st op inv hinv]
+  simp [model, St.init, hb, runOpsWith, stepObs, mkStep]
+
+/-- **C20_switch_moves_only_by_switch_ops**: an operation other than the two setters, `enter` and the two
+    exits leaves the cell and every saved entry state exactly as they were — as seen after the operation
+    (`stepSt`) and, by `C20_callbacks_see_callers_switch`, as seen from inside every callback it runs; and a
+    well-formed callback body as a whole gives the switch back as it found it. -/
+theorem C20_switch_moves_only_by_switch_ops (c : Case) (st : St) (op : Op)
+    (hop : (∀ a, op ≠ .setDisabled a) ∧ (∀ a, op ≠ .setRun a) ∧ op ≠ .enter ∧ op ≠ .exit ∧ op ≠ .exitExc) :
+    stepSt st op = st ∧
+    (stepObs c st (stepSt st op) op).run = B3.ofBool st.run ∧
+    (wf c = true → ∀ b, (runSt { run := b, stack := [] } c.body).run = b) := by
+  refine ⟨?_, ?_, ?_⟩
+  · cases op <;> first | rfl | (exfalso; simp at hop)
+  · have h : stepSt st op = st := by cases op <;> first | rfl | (exfalso; simp at hop)
+    rw [(stepObs_views c st (stepSt st op) op).1, h]
+  · intro hwf b
+    unfold wf at hwf
+    simp only [Bool.and_eq_true, beq_iff_eq] at hwf
+    cases b
+    · exact hwf.1.1.2.2
+    · exact hwf.1.1.2.1.2
 
 /-! ## What `C20_restore` excludes: the context manager before ee5b683 -/
 
 def witnessCase : Case :=
-  { classes := [{ isDefine := false, clsOnSet := .unset, kwOnly := false, pre := .none, post := false, fields := [] }], fault := none, start := true,
+  { classes := [{ isDefine := false, clsOnSet := .unset, kwOnly := false, pre := .none, post := false, fields := [] }], fault := none, probe := none, body := [], start := true,
     ops := [.enter, .enter, .exit, .exit] }
 
 /-- **C20_old_manager_violates** (regression witness for the repaired deviation F1; `stepStOld`/`modelOld` are
@@ -371,13 +426,16 @@ example : bal 0 [.enter, .setDisabled .F, .enter, .construct 0, .exitExc, .valid
 def sampleCase : Case :=
   { classes := [
       { isDefine := true, clsOnSet := .unset, kwOnly := false, pre := .noArgs, post := true,
-        fields := [{ name := "x", validators := 2, conv := true, onSet := .unset, factory := false }] },
+        fields := [{ name := "x", validators := 2, conv := true, onSet := .unset, init := true, dflt := .none }] },
       { isDefine := true, clsOnSet := .unset, kwOnly := false, pre := .noArgs, post := true,
-        fields := [{ name := "x", validators := 2, conv := true, onSet := .unset, factory := false },
-                   { name := "y", validators := 1, conv := false, onSet := .chain [.custom, .validate], factory := false }] },
+        fields := [{ name := "x", validators := 2, conv := true, onSet := .unset, init := true, dflt := .none },
+                   { name := "y", validators := 1, conv := false, onSet := .chain [.custom, .validate], init := true, dflt := .none }] },
       { isDefine := true, clsOnSet := .unset, kwOnly := false, pre := .noArgs, post := true,
-        fields := [{ name := "x", validators := 1, conv := false, onSet := .unset, factory := false }] }],
-    fault := some { kind := "validator", field := "y", idx := 0 }, start := true,
+        fields := [{ name := "x", validators := 1, conv := false, onSet := .unset, init := true, dflt := .none }] }],
+    fault := some { kind := "validator", field := "y", idx := 0 },
+    probe := some { kind := "validator", field := "x", idx := 0 },
+    body := [.getRun, .enter, .setDisabled .F, .construct 2, .exit, .validate 2],
+    start := true,
     ops := [.validate 0, .validate 1, .validate 2, .enter, .enter, .setDisabled .F, .assign 1 1 .same, .exitExc,
             .construct 1, .exit, .validate 1] }
 
@@ -387,8 +445,25 @@ example : ((model sampleCase).steps.map (fun s => (s.run, s.events.length, s.exc
     [(.t, 2, none), (.t, 3, some .user), (.t, 1, none), (.f, 0, none), (.f, 0, none), (.t, 0, none),
      (.t, 2, some .user), (.f, 0, none), (.f, 3, none), (.t, 0, none), (.t, 3, some .user)] := by decide
 
+/-- the probing validator's body runs once per call; inside it the getter shows the caller's switch, a block of
+    its own with a flip inside validates, and afterwards the switch is what it was -/
+example : (model sampleCase).nested.map List.length = [1, 1, 1, 0, 0, 0, 0, 0, 0, 0, 1] := by decide
+
+example : ((model sampleCase).nested.head?.bind List.head?).map (fun inv => inv.map (fun s => (s.run, s.ret, s.events.length)))
+    = some [(.t, some .t, 0), (.f, none, 0), (.t, none, 0), (.t, none, 3), (.t, none, 0), (.t, none, 1)] := by decide
+
+/-- an `init=False` field with a default factory and a validator: constructed and validated iff enabled -/
+def initFalseCls : Cls :=
+  { isDefine := true, clsOnSet := .unset, kwOnly := false, pre := .none, post := true,
+    fields := [{ name := "x", validators := 1, conv := false, onSet := .unset, init := true, dflt := .none },
+               { name := "d", validators := 1, conv := true, onSet := .unset, init := false, dflt := .factory true }] }
+
+example : constructPlan initFalseCls true
+    = [⟨"factory", "d", 0⟩, ⟨"conv", "d", 0⟩, ⟨"validator", "x", 0⟩, ⟨"validator", "d", 0⟩, ⟨"post", "", 0⟩] := by
+  decide
+
 example : ∃ cls f, (∃ e ∈ assignPlan cls true f, isValidator e = true) :=
   ⟨{ isDefine := true, clsOnSet := .unset, kwOnly := false, pre := .none, post := false, fields := [] },
-   { name := "x", validators := 1, conv := false, onSet := .unset, factory := false }, by decide⟩
+   { name := "x", validators := 1, conv := false, onSet := .unset, init := true, dflt := .none }, by decide⟩
 
 end Attrs.C20
